@@ -11,7 +11,7 @@ PROPERTY = "C08"
 LEVEL = "exploration"
 RULE = ("Model-based generated histories of add_arm / remove_arm / fit / partial_fit / warm_start / predict / "
         "predict_expectations over every learning x neighbourhood policy pair, int / float / str / mixed labels, "
-        "n_jobs 1 and 2 (threading), queries with 1..5 rows (context-free bandits with and without contexts), arm "
+        "n_jobs 1..4, 19, 40 (threading; more workers than processors included), queries with 1..33 rows, Series queries, refits with another number of columns (context-free bandits with and without contexts), arm "
         "changes and queries before the first fit included. Invariant after every step: mab.arms equals the model's "
         "arm list; predict returns members of it; predict_expectations keys equal it in order; m>1 rows give a list "
         "of m, else a single result; for deterministic policies result i of a batch equals the single-row result. "
